@@ -324,6 +324,38 @@ def filterDuplicates (ps : List Path) : List Path :=
   let m := (indexedFrom 0 ps).foldl dedupStep []
   ((indexedFrom 0 ps).filter fun ip => m.any fun kv => kv.2.1 == ip.1).map (·.2)
 
+/-! ## `filterDuplicates` with an explicit fingerprint function
+
+The code keys `uniquePaths` by the SHA-256 of the interface list; the model above keys it by the
+interface list itself.  `Scion.C28.fingerprint_sound` shows both return the same paths when the
+fingerprint function is injective on the interface lists at hand. -/
+section Fingerprint
+variable {F : Type} [DecidableEq F]
+
+/-- `uniquePaths` keyed by an explicit fingerprint (SHA-256 of the interface list in the code) -/
+def ulookupF (m : List (F × Nat × Nat)) (k : F) : Option (Nat × Nat) :=
+  match m with
+  | [] => none
+  | (k', v) :: rest => if k' = k then some v else ulookupF rest k
+
+def usetF (m : List (F × Nat × Nat)) (k : F) (v : Nat × Nat) : List (F × Nat × Nat) :=
+  match m with
+  | [] => [(k, v)]
+  | (k', w) :: rest => if k' = k then (k', v) :: rest else (k', w) :: usetF rest k v
+
+def dedupStepF (fp : List Iface → F) (m : List (F × Nat × Nat)) (ip : Nat × Path) :
+    List (F × Nat × Nat) :=
+  match ulookupF m (fp ip.2.intfs) with
+  | none => usetF m (fp ip.2.intfs) (ip.1, ip.2.expiry)
+  | some (_, e) => if ip.2.expiry > e then usetF m (fp ip.2.intfs) (ip.1, ip.2.expiry) else m
+
+/-- `filterDuplicates` with the fingerprint function `fp` as in combinator.go -/
+def filterDuplicatesF (fp : List Iface → F) (ps : List Path) : List Path :=
+  let m := (indexedFrom 0 ps).foldl (dedupStepF fp) []
+  ((indexedFrom 0 ps).filter fun ip => m.any fun kv => kv.2.1 == ip.1).map (·.2)
+
+end Fingerprint
+
 /-! ## Specification: all joins -/
 
 /-- `vertex` of graph.go: an AS (`ia`) or a peering link -/
